@@ -139,6 +139,20 @@ Theorem C08_tracer_delegates : forallb tracer_ok tracer_facts = true.
 Proof. vm_compute. reflexivity. Qed.
 Print Assumptions C08_tracer_delegates.
 
+(* bind order: where the statement text names the column of a placeholder, the Go type of the argument bound to it is one the
+   column takes (a remote id is not bound to a name column, an internal id not to a remote id column, ...) *)
+Theorem C08_bind_order : forallb bind_ok bind_facts = true.
+Proof. vm_compute. reflexivity. Qed.
+Print Assumptions C08_bind_order.
+
+(* AddDeletedSubscription for a name that is already recorded replaces the remote id of that entry: afterwards the name has
+   exactly one entry, with the new id, and the table has not grown *)
+Theorem C08_deleted_subscription_replaced : forall name r1 r2 d d1 d2,
+  op_add_deleted_subscription name r1 d = Ok d1 RUnit -> op_add_deleted_subscription name r2 d1 = Ok d2 RUnit ->
+  In (name, r2) (d_subs d2) /\ (forall r, In (name, r) (d_subs d2) -> r = r2) /\ length (d_subs d2) = length (d_subs d1).
+Proof. exact deleted_subscription_replaced. Qed.
+Print Assumptions C08_deleted_subscription_replaced.
+
 (* flag removal compares case-insensitively *)
 Theorem C08_remove_flag_nocase : remove_flag_nocase = true.
 Proof. vm_compute. reflexivity. Qed.
